@@ -132,6 +132,10 @@ def units(tier, seed):
                           std_factor=(2.0, 3.5, 1.0)[k % 3], box=("B_dec", "B_3d", "B_asym")[k % 3], sprout={"kind": ("simple", "nbc")[k % 2], "L": 2}))
         descs.append(dict(engines=list(eng), gens=2, obj=("twofunnel", "sphere_in")[k % 2], maximize=bool(k % 2), Mh=3, seed=s + k % 3, kelites=1 + k % 2, levelshift=True,
                           sprout={"kind": ("simple", "nbc")[k % 2], "L": 2}))
+    # beyond the small scope (hmsmc/scale.py): run once each
+    from ..scale import big_population_worlds
+
+    descs += big_population_worlds(tier, seed)
     us = [{"kind": "run", "descs": c} for c in chunks(descs, 30)]
     ops = []
     for op in ENGINE_OPS:
